@@ -245,9 +245,30 @@ fn beyond_alphabet() -> Vec<Op> {
         Op::SetMode(Mode::CasePreserving),
         Op::ClearRrs,
         Op::Template { buf: 40000 },
+        // 300 octets: later names sit at offsets whose pointers need the
+        // upper six bits.
+        rr(0, own("c.b.a."), t::TXT, IN, 60, rd_txt(300), false),
     ]
 }
 
+/// TXT records of every length in a 24-octet window chosen so that the names
+/// written next start at every offset from a few octets below 0x3fff to a few
+/// above it (a name may straddle the end of the 14-bit pointer range).
+fn edge_alphabet() -> Vec<Op> {
+    let mut a: Vec<Op> = (16338..=16361).map(|l| rr(0, own("a."), t::TXT, IN, 60, rd_txt(l), false)).collect();
+    a.extend([
+        q("b.a.", t::A, IN),
+        rr(0, own("a.b.a."), t::NS, IN, 60, rd_name("c.a.b.a."), true),
+        rr(0, hinted(HintSpec::MostRecentOwner, "b.a.", true), t::MX, IN, 60, rd_mx(5, "a.b.a."), false),
+        rr(0, hinted(HintSpec::MostRecentNameInRdata, "b.a.", false), t::CNAME, IN, 60, rd_name("B.A."), false),
+        rr(0, hinted(HintSpec::Explicit(0), "c.a.", false), t::A, IN, 60, vec![10, 0, 0, 2], false),
+        rr(0, own("b.a."), t::SOA, IN, 60, rd_soa("a.b.a.", "b.b.a."), false),
+    ]);
+    a
+}
+
+/// Families are listed cheapest first so that a wall-clock cap (overloaded
+/// machine) cuts into the largest family only.
 pub fn families(prop: crate::explore::Prop, quick: bool) -> Vec<Family> {
     use crate::explore::Prop::*;
     let tight = Config { buf: 160, limit: Some(120) };
@@ -257,7 +278,6 @@ pub fn families(prop: crate::explore::Prop, quick: bool) -> Vec<Family> {
     const HINTS: &str = "owners given with every hint kind (contract-respecting, incl. case-flipped), RDATA names, hint vectors, mode switches, clear_rrs";
     match prop {
         C12 => vec![
-            Family { name: "full", what: FULL, alphabet: full_alphabet(), configs: vec![whole()], depth: d(4, 5) },
             Family {
                 name: "full-tight",
                 what: "the full alphabet in a 160-octet buffer with initial limit 120 (truncations and rollbacks everywhere)",
@@ -271,6 +291,13 @@ pub fn families(prop: crate::explore::Prop, quick: bool) -> Vec<Family> {
                 alphabet: header_alphabet(),
                 configs: vec![Config { buf: 512, limit: None }],
                 depth: d(4, 5),
+            },
+            Family {
+                name: "pointer-range-edge",
+                what: "a TXT record of every length 16338..=16361 followed by names: name fields start at every offset around 0x3fff, the end of the 14-bit pointer range",
+                alphabet: edge_alphabet(),
+                configs: vec![whole()],
+                depth: d(3, 4),
             },
             Family {
                 name: "limits",
@@ -301,14 +328,15 @@ pub fn families(prop: crate::explore::Prop, quick: bool) -> Vec<Family> {
                 configs: vec![small],
                 depth: d(6, 7),
             },
+            Family { name: "full", what: FULL, alphabet: full_alphabet(), configs: vec![whole()], depth: d(4, 5) },
         ],
         C13 => vec![
             Family {
-                name: "similar-names",
-                what: "owners and RDATA names over labels a/b/c with shared suffixes and case variants, all hint kinds, three compression modes, SRV / CH A / unknown-type RDATA that looks like a name, 16 KiB TXT, clear_rrs",
-                alphabet: similar_names_alphabet(),
+                name: "pointer-range-edge",
+                what: "a TXT record of every length 16338..=16361 followed by names: name fields start at every offset around 0x3fff, the end of the 14-bit pointer range",
+                alphabet: edge_alphabet(),
                 configs: vec![whole()],
-                depth: d(5, 6),
+                depth: d(3, 4),
             },
             Family {
                 name: "beyond-0x3fff",
@@ -325,6 +353,13 @@ pub fn families(prop: crate::explore::Prop, quick: bool) -> Vec<Family> {
                 depth: d(5, 6),
             },
             Family { name: "full", what: "the C12 full alphabet under the pointer oracle", alphabet: full_alphabet(), configs: vec![whole(), tight], depth: 4 },
+            Family {
+                name: "similar-names",
+                what: "owners and RDATA names over labels a/b/c with shared suffixes and case variants, all hint kinds, three compression modes, SRV / CH A / unknown-type RDATA that looks like a name, 16 KiB TXT, clear_rrs",
+                alphabet: similar_names_alphabet(),
+                configs: vec![whole()],
+                depth: d(5, 6),
+            },
         ],
     }
 }
